@@ -677,6 +677,7 @@ def run(ctx):
         return not (r.truth(T("hasattr", o0, "'keys'")) is True and r.truth(T("hasattr", o0, "'__getitem__'")) is True)
     seen_kinds = set()
     n_ext = 0
+    n_unrec7 = 0
 
     def arity(r):
         """numbers of positional sources (0..3) consistent with the decisions of the row on len(args) / truthiness of args"""
@@ -707,6 +708,17 @@ def run(ctx):
         if max(ns) >= 2:
             ob(R7, fi, "a second positional source is never silently ignored", False, f"this path returns normally although {sorted(ns)} positional sources are possible: the extra source's values are lost", r)
         pos_adds = [e for e in r.ev if e[0] == "call" and e[1] == "self.add" and isinstance(e[-1], tuple) and e[-1][:1] == ("in",) and e[-1][1:] != (KW,)]
+        loops_here = [l_ for e in r.ev if isinstance(e[-1], tuple) and e[-1][:1] == ("in",) for l_ in e[-1][1:]]
+        if any(l_ == "?" or "?" in l_ or l_.startswith(("chain(", "itertools.chain(", "g:itertools.chain", "call(")) for l_ in loops_here):
+            # the pairs are fed to add() through an iterable the rule cannot resolve (a chain of sources, a generator built by a
+            # helper): DESIGN 13.2 - provenance only: every change goes through add() without combine
+            n_unrec7 += 1
+            bad_ev = [e for e in r.ev if not (e[0] == "call" and e[1] == "self.add") and e[0] in ("store", "del", "setidx", "append", "storage-call", "storage-update", "storage-clear")]
+            comb = [e for e in r.ev if e[0] == "call" and e[1] == "self.add" and any(isinstance(a_, str) and a_.startswith("combine=") and a_ != "combine=False" for a_ in e[2:])]
+            ob(R7, fi, "extend() idiom not recognised on this row: every change goes through add() without combine (provenance only)", not bad_ev and not comb,
+               f"events {r.ev}", r)
+            n_ext += 1
+            continue
         if pos_adds and 0 in ns:
             ob(R7, fi, "pairs of the positional source are added only when there is one", False, "the positional source is read on a path where none may have been given", r)
         if e_keys_bad(r):
@@ -750,9 +762,14 @@ def run(ctx):
         ob(R7, fi, f"row with {len(evs)} insertion(s): only add(name, value) per source pair, positional source before keywords", ok, why + f" - events {r.ev}", r)
     ctx.sites(R7, n_ext, 4, "returning rows of extend")
     for kind in SRC:
+        if n_unrec7:
+            break  # the per-kind table is not decidable when the sources are fed through an unresolved iterable
         ctx.ob(R7, fi.qual, f"source kind `{kind}` is read pair by pair and added", kind in seen_kinds,
                "" if kind in seen_kinds else "no row of extend() inserts the pairs of this accepted source kind", node=fi.node)
-    any_kw = any(any(isinstance(e[-1], tuple) and e[-1][1:] == (KW,) for e in r.ev) for r in rows)
+    any_kw = any(any(isinstance(e[-1], tuple) and (e[-1][1:] == (KW,) or (n_unrec7 and any(KW in str(l_) for l_ in e[-1][1:]))) for e in r.ev) for r in rows)
+    if n_unrec7 and not any_kw and fi.node.args.kwarg is not None:
+        # unresolved iterable: at least the keyword mapping must be read by extend() (provenance only)
+        any_kw = any(isinstance(n_, ast.Name) and n_.id == fi.node.args.kwarg.arg and isinstance(n_.ctx, ast.Load) for n_ in ast.walk(fi.node))
     ctx.ob(R7, fi.qual, "keyword arguments are added", any_kw, "" if any_kw else "extend(**kwargs) drops its keyword pairs", node=fi.node)
 
     # ------------------------------------------------------------------ getlist
@@ -824,7 +841,8 @@ def run(ctx):
         if r.out in WRONG_LENS:
             return True, False, "the item view's length is the number of value lines (not of names, and not counting the stored spellings)"
         # a counting idiom the rule does not recognise: accepted when it is computed from this view's header dict alone
-        ok = "self._headers" in r.out and not r.ev and all(("self._headers" in a or not a.startswith(("p:", "self.", "g:"))) for a in subterms(r.out[7:]) if destruct(a)[0] is None)
+        quiet_ev = all(e[0] == "call" and isinstance(e[1], str) and e[1].startswith("self._headers.") and len(e) == 2 for e in r.ev)  # argument-less accessors of the dict
+        ok = "self._headers" in r.out and quiet_ev and all(("self._headers" in a or not a.startswith(("p:", "self.", "g:"))) for a in subterms(r.out[7:]) if destruct(a)[0] is None)
         return True, ok, "the item view's length must be computed from its header dict"
     check_rows(R8, fi, rows, p_vlen, "item view length")
     fi, rows, _ = rows_of(ctx, IV, "__contains__", sf)
@@ -851,6 +869,8 @@ def run(ctx):
     def p_has(r):
         if not r.out.startswith("return"):
             return False, True, ""
+        if r.isinst(pn, "str") is False:
+            return True, r.out == "return:False" and not r.ev, "a name that is not a str has no value line"
         pres = r.present(k)
         if pres is False:
             return True, r.out == "return:False", "a missing name has no value line (and must not raise)"
@@ -930,7 +950,7 @@ def run(ctx):
         want = []
         if none is False:
             want.append(("call", "self._copy_from", ph) if is_hd is True else ("call", "self.extend", ph))
-        kw = [e for e in evs if e == ("call", "self.extend", "p:**kwargs")]
+        kw = [e for e in evs if e in (("call", "self.extend", "p:**kwargs"), ("call", "self.extend", "**=p:**kwargs"))]  # extend(kwargs) and extend(**kwargs) add the same pairs
         rest = [e for e in evs if e not in kw]
         kw_truth = r.truth("p:**kwargs")
         kw_ok = len(kw) <= 1 and (not kw or evs[-1] == kw[0]) and (bool(kw) or kw_truth is False)
@@ -944,7 +964,16 @@ def run(ctx):
 
     fi, rows, _ = rows_of(ctx, HD, "setdefault", sf)
     ps = ["p:" + x for x in fi.params()[:2]]
-    check_rows(R9, fi, rows, lambda r: (r.out.startswith("return"), r.out == "return:" + T("super.setdefault", *ps), "setdefault must be the mapping mix-in's (lookup, else assign) on the same key and default"), "setdefault")
+    def p_setdefault(r):
+        if not r.out.startswith("return"):
+            return False, True, ""
+        if r.out == "return:" + T("super.setdefault", *ps):
+            return True, True, ""
+        # the mix-in's body written out: the present value, or assign the default and return it
+        looked = r.out == "return:" + T("self.__getitem__", ps[0]) and not r.ev
+        assigned = r.out == "return:" + ps[1] and r.ev == (("call", "self.__setitem__", ps[0], ps[1]),)
+        return True, looked or assigned, "setdefault must be the mapping mix-in's (lookup, else assign) on the same key and default"
+    check_rows(R9, fi, rows, p_setdefault, "setdefault")
     for inherited in ("pop", "popitem", "update", "clear", "get"):
         own = inherited in m.cls(HD).methods
         ctx.ob(R9, HD, f"`{inherited}` is the MutableMapping mix-in (built on the item access rules above)", not own,
